@@ -521,7 +521,12 @@ func (x *fx) applyContract(c2 *Contract, f *ssa.Function, sig *types.Signature, 
 	} else {
 		pnames = append(pnames, "recv")
 		for k := 0; k < sig.Params().Len(); k++ {
-			pnames = append(pnames, sig.Params().At(k).Name())
+			pn := sig.Params().At(k).Name()
+			if pn == "" || pn == "_" {
+				// unnamed interface-method parameters are arg0, arg1, ...
+				pn = fmt.Sprintf("arg%d", k)
+			}
+			pnames = append(pnames, pn)
 		}
 	}
 	pm := map[string]*Val{}
